@@ -293,11 +293,35 @@ def logic_or_inlined(prog, fn, anchors):
     if len(roots) != 1:
         return None
     best = None
+    cg = callgraph(prog)
+
+    def leads_to_anchor(cb, seen=()):
+        # splice only the helpers on the way to the anchor call; other helpers (e.g. the read helper) stay calls, as the rules
+        # written against the unsplit function expect them
+        if cb.id in seen:
+            return False
+        for fb2 in family(prog, cb):
+            for bb, t in fb2.calls():
+                if any(n in anchors for n in callee_names(t)):
+                    return True
+                f = callee(t)
+                tgt = prog.bodies.get((f or {}).get("inst") or (f or {}).get("def")) if f else None
+                if tgt is not None and tgt.crate == cb.crate and leads_to_anchor(tgt, seen + (cb.id,)):
+                    return True
+        return False
     for fb in family(prog, roots[0]):
-        ib = inlined(prog, fb, same_impl_helpers(fb, module=True))
+        base = same_impl_helpers(fb, module=True)
+        ib = inlined(prog, fb, lambda cb: base(cb) and leads_to_anchor(prog.bodies.get(cb.root, cb) if cb.raw.get("coroutine") else cb))
         if ib.raw.get("inlined") and any(any(n in anchors for n in callee_names(t)) for bb, t in ib.calls()):
             if best is None or len(ib.blocks) > len(best.blocks):
                 best = ib
     return best
 
 
+
+
+def builder_parse_bodies(prog):
+    """[ResponseBuilder::parse] — with the private helpers on the way to the component parser spliced in when the parse step was
+    moved out of it (e.g. `split_component`), so that rules written against the unsplit function keep seeing one body"""
+    b = logic_or_inlined(prog, "mpd_protocol::response::ResponseBuilder::parse", {"mpd_protocol::parser::ParsedComponent::parse"})
+    return [b] if b is not None else []
